@@ -138,6 +138,18 @@ PROJECTS = [
         "inc2/y.exps": "macro why() {\n    rel_inc2_y();\n}\n",
         "scripts/r1.exps": "import \"x.exps\";\nimport \"y.exps\";\ndef 0 {\n    ~pick();\n    ~why();\n    end;\n}\n",
      }, "lookup": [], "lookup_rel": ["../inc1", "../inc2"]},
+    # the same RELATIVE import names in different directories, '../' imports, a transitive chain script -> lib -> base
+    {"files": {
+        "base.exps": "macro base($v) {\n    base_op($v);\n}\n",
+        "a/lib.exps": "import \"../base.exps\";\nmacro shared() {\n    from_a();\n    ~base(1);\n}\n",
+        "b/lib.exps": "macro shared() {\n    from_b();\n    from_b2('x\\ny');\n}\n",
+        "a/script.exps": "import \"./lib.exps\";\nimport \"../base.exps\";\ndef 0 {\n    ~shared();\n    ~base(2);\n    end;\n}\n",
+        "b/script.exps": "import \"./lib.exps\";\nimport \"../base.exps\";\ndef 0 {\n    ~shared();\n    ~base(3);\n    hold;\n}\n",
+        "a/sub/deep.exps": "import \"../lib.exps\";\ndef 0 {\n    ~shared();\n    end;\n}\n",
+        "chain/top.exps": "import \"./mid.exps\";\ndef 0 {\n    ~mid();\n    end;\n}\n",
+        "chain/mid.exps": "import \"./low.exps\";\nmacro mid() {\n    ~low();\n    m();\n}\n",
+        "chain/low.exps": "import \"../base.exps\";\nmacro low() {\n    ~base(9);\n}\n",
+     }, "lookup": []},
     # many macros per file, calling each other, called in another order than defined
     {"files": {
         "many/lib.exps": "".join(f"macro m{i}($a) {{\n    op{i}($a, Position<'p{i}', {i}, {i}.5>);\n" + (f"    ~m{i - 3}($a);\n" if i >= 3 and i % 2 else "") + "}\n" for i in range(14)),
